@@ -85,6 +85,11 @@ fn positional(p: &Pat) -> Vec<i128> {
 /// the identifier of the i-th enumeral (every third one has a hyphen: its Rust / TypeScript
 /// member name differs from it, the name on the wire must not)
 pub fn enumeral_name(i: usize) -> String {
+    // every fifth one is a Rust keyword (a legal ASN.1 identifier): renamed in the bindings as well
+    const KW: [&str; 12] = ["type", "match", "loop", "impl", "fn", "mod", "move", "ref", "use", "where", "abstract", "yield"];
+    if i % 5 == 3 {
+        return KW[(i / 5) % KW.len()].to_string();
+    }
     if i % 3 == 1 {
         format!("it-{i}x")
     } else {
